@@ -14,16 +14,18 @@
     do <dst> <h> <dofn> <N|(L S:*)>         dofn: (fn isnone) | (fn dflt cell) | (fn coalesce S:b)
     concat <dst> (L h*)    add <dst> <h1> <h2>    addrec <dst> <h> (D (k cell)*)    addnone <h> <N|I:0|F:0>
     copy <dst> <h>         inc0 <dst> <h>   (d.inc() without conditions = copy)
+    alias <dst> <h>        `dst = h + None` / `dst = dictable.concat([h])`: dst is bound to the SAME object as h
+                           (the state is the reference heap of PygModel/TableAlias.lean: handles are pointers)
   reply    ok (T <outcome> (L <table>*))    outcome: N | value | (alias I:h) | (E ValueError|...)
            the list is the dump of ALL live handles after the operation
 -/
-import PygModel.Table
+import PygModel.TableAlias
 
 namespace Pyg.TableDriver
 open Pyg
 
-abbrev St := Heap
-def init : St := []
+abbrev St := RefHeap
+def init : St := RefHeap.empty
 def modelName : String := "tbl"
 
 def handleOf : Sexp → Option Nat
@@ -132,7 +134,6 @@ def parseOp (op : String) (args : List Sexp) : Option Op :=
   | "iter", [h] => (handleOf h).map .iter
   | "tup", [h, ks] => do
       let ks ← strsOf ks
-      if ks.isEmpty then Option.none
       pure (.tup (← handleOf h) ks)
   | "apply", [h, f] => do pure (.apply (← handleOf h) (← fnOf f))
   | "slice", [dst, h, a, b, s] => do
@@ -141,8 +142,9 @@ def parseOp (op : String) (args : List Sexp) : Option Op :=
       let ms ← ms.mapM fun m => match cellOf m with
         | some (.bool b) => some b
         | _ => Option.none
-      if ms.isEmpty then Option.none
-      pure (.mask (← handleOf dst) (← handleOf h) ms)
+      -- `d[[]]`: python cannot tell an empty mask from an empty int list (line 385-386: `len(item) == 0`)
+      if ms.isEmpty then pure (.take (← handleOf dst) (← handleOf h) [])
+      else pure (.mask (← handleOf dst) (← handleOf h) ms)
   | "take", [dst, h, .node (.atom "L" :: is)] => do
       let is ← is.mapM fun i => match cellOf i with
         | some (.int n) => some n
@@ -182,9 +184,6 @@ def parseOp (op : String) (args : List Sexp) : Option Op :=
   | "inc0", [dst, h] => do pure (.copy (← handleOf dst) (← handleOf h))
   | _, _ => Option.none
 
-/-- new names that would be swallowed by the constructor's own parameters in `type(self)(**{...})` -/
-def reserved (k : String) : Bool := k == "data" || k == "columns"
-
 /-- destination handles must be live or the next free one -/
 def Op.dstOk (n : Nat) : Op → Bool
   | .new d .. | .slice d .. | .mask d .. | .take d .. | .proj d .. | .call d .. | .relabel d ..
@@ -198,18 +197,22 @@ def renderOut : Out → Option String
   | .err e => some s!"(E {e.render})"
   | .badHandle => Option.none
 
+def parseROp (op : String) (args : List Sexp) : Option ROp :=
+  match op, args with
+  | "alias", [dst, h] => do pure (.bindAlias (← handleOf dst) (← handleOf h))
+  | _, _ => (parseOp op args).map .op
+
+def ROp.dstOk (n : Nat) : ROp → Bool
+  | .op o => Op.dstOk n o
+  | .bindAlias d _ => d ≤ n
+
 def handle (s : St) (op : String) (args : List Sexp) : Option (St × String) := do
-  let o ← parseOp op args
-  if !Op.dstOk s.length o then Option.none
-  -- outside the modelled universe: keyword expansion into `dictable(**cols)` with reserved names
-  match o with
-  | .relabel _ h r =>
-      if ((s[h]?.getD []).cols.any fun k => reserved (r.key k)) then Option.none
-  | .proj _ _ ks => if ks.any reserved then Option.none
-  | _ => pure ()
-  let (s', out) := step s o
+  let o ← parseROp op args
+  if !ROp.dstOk s.ptr.length o then Option.none
+  let (s', out) := rstep s o
   let r ← renderOut out
-  let dump := " ".intercalate (s'.map fun t => t.toVal.render)
+  -- what every handle reads (aliased handles show the same table)
+  let dump := " ".intercalate (s'.view.map fun t => (t.getD []).toVal.render)
   pure (s', s!"ok (T {r} (L{if dump.isEmpty then "" else " " ++ dump}))")
 
 end Pyg.TableDriver
